@@ -108,6 +108,36 @@ fn cases(tier: Tier) -> Vec<Case> {
                     }
                 }
             }
+            // the source fails after the closed deep value
+            for w in words(2) {
+                for ending in 7..10 {
+                    v.push(Case {
+                        word: w.clone(),
+                        ending,
+                        rec: (false, false),
+                        entry: 0,
+                        depth: 50_000,
+                        stack_kib: 64,
+                        width: 0,
+                    });
+                }
+            }
+            // depths beyond every "reasonable" limit an implementation might hard-code
+            for w in [vec![0usize], vec![2], vec![0, 2]] {
+                for depth in [100_003usize, 131_073, 1_000_003] {
+                    for ending in [0u8, 1] {
+                        v.push(Case {
+                            word: w.clone(),
+                            ending,
+                            rec: (false, false),
+                            entry: 0,
+                            depth,
+                            stack_kib: 64,
+                            width: 0,
+                        });
+                    }
+                }
+            }
             // wide containers: widths on both sides of 32 and 256
             for w in wide_words() {
                 for width in [33, 257] {
@@ -143,8 +173,21 @@ fn cases(tier: Tier) -> Vec<Case> {
                     }
                 }
             }
+            for w in words(3) {
+                for ending in 7..10 {
+                    v.push(Case {
+                        word: w.clone(),
+                        ending,
+                        rec: (false, false),
+                        entry: 0,
+                        depth: 200_000,
+                        stack_kib: 64,
+                        width: 0,
+                    });
+                }
+            }
             for w in words(2) {
-                for ending in [0, 1, 3, 5] {
+                for ending in [0, 1, 3, 5, 7, 9] {
                     v.push(Case {
                         word: w.clone(),
                         ending,
@@ -255,7 +298,7 @@ fn build(c: &Case) -> (String, usize, Option<(usize, Option<char>)>) {
 
 /// Releases a value without recursion (the drop glue of a deeply nested value is recursive,
 /// which is outside C03; the harness must neither overflow nor leak).
-fn release(v: Value) {
+pub fn release(v: Value) {
     let mut pending = vec![v];
     while let Some(v) = pending.pop() {
         match v {
@@ -267,6 +310,12 @@ fn release(v: Value) {
 }
 
 fn run_case_in_thread(c: &Case) -> Result<(), String> {
+    // endings 7..9 are the closed document followed by a failure of the *source* (not a syntax
+    // error): an ill-formed byte, whitespace and a truncated UTF-8 sequence, an error answer of
+    // the character iterator - the finished deep value has to be disposed of on that path too
+    if c.ending >= 7 {
+        return run_source_failure_case(c);
+    }
     let (doc, frags, err) = build(c);
     let o = Options {
         accept_truncated_surrogate_pair: c.rec.0,
@@ -314,6 +363,67 @@ fn run_case_in_thread(c: &Case) -> Result<(), String> {
     }
 }
 
+fn run_source_failure_case(c: &Case) -> Result<(), String> {
+    let mut closed = c.clone();
+    closed.ending = 0;
+    let (doc, _, _) = build(&closed);
+    let o = Options {
+        accept_truncated_surrogate_pair: c.rec.0,
+        accept_invalid_codepoints: c.rec.1,
+    };
+    let ending = c.ending;
+    let h = std::thread::Builder::new()
+        .stack_size(c.stack_kib * 1024)
+        .spawn(move || -> Result<(), String> {
+            let len = doc.len();
+            match ending {
+                7 | 8 => {
+                    let mut bytes = doc.into_bytes();
+                    let want = if ending == 7 {
+                        bytes.push(0xff);
+                        len
+                    } else {
+                        bytes.extend_from_slice(b" \xe2\x82");
+                        len + 1
+                    };
+                    match Value::parse_slice_with(&bytes, o) {
+                        Err(json_syntax::parse::Error::InvalidUtf8(p)) if p == want => Ok(()),
+                        Err(e) => Err(format!("expected InvalidUtf8({want}), got {e:?}")),
+                        Ok((v, _)) => {
+                            release(v);
+                            Err("ill-formed UTF-8 after the value was accepted".into())
+                        }
+                    }
+                }
+                _ => {
+                    let mut failed = false;
+                    let mut chars = doc.chars();
+                    let src = std::iter::from_fn(|| match chars.next() {
+                        Some(c) => Some(Ok(c)),
+                        None if !failed => {
+                            failed = true;
+                            Some(Err(7u8))
+                        }
+                        None => None,
+                    });
+                    match Value::parse_utf8_with(src, o) {
+                        Err(json_syntax::parse::Error::Stream(p, 7)) if p == len => Ok(()),
+                        Err(e) => Err(format!("expected Stream({len}, 7), got {e:?}")),
+                        Ok((v, _)) => {
+                            release(v);
+                            Err("the document was accepted although its source failed".into())
+                        }
+                    }
+                }
+            }
+        })
+        .map_err(|e| format!("cannot spawn thread: {e}"))?;
+    match h.join() {
+        Ok(r) => r,
+        Err(_) => Err("the parsing thread panicked".into()),
+    }
+}
+
 /// Child process: `chk-parse C03 --pump-child <tier> <start> <end>`; protocol on stdout:
 /// `S <i>` before case i, `D <i> ok` / `D <i> bad <message>` after it.
 pub fn child_main() -> i32 {
@@ -340,7 +450,7 @@ pub fn child_main() -> i32 {
 }
 
 fn case_json(i: usize, c: &Case, tier: Tier) -> J {
-    let ending = ["closed", "unclosed", "wrong innermost closer", "closed + trailing garbage", "wrong outermost closer", "deep first array item then a bad item", "deep first member then a bad key"][c.ending as usize];
+    let ending = ["closed", "unclosed", "wrong innermost closer", "closed + trailing garbage", "wrong outermost closer", "deep first array item then a bad item", "deep first member then a bad key", "closed + an ill-formed byte", "closed + whitespace + a truncated UTF-8 sequence", "closed, then the character source fails"][c.ending as usize];
     let entry = ["parse_slice_with", "parse_str_with"][c.entry as usize];
     json!({
         "kind": "pump",
@@ -382,7 +492,7 @@ fn run_range(tier: Tier, start: usize, end: usize, cs: &[Case], t: &mut Tally) {
                     next = i + 1;
                     let status = it.next().unwrap_or("");
                     if status == "ok" {
-                        t.outcome(["pump:closed ok", "pump:unclosed rejected at end", "pump:wrong closer rejected in place", "pump:trailing garbage rejected in place", "pump:wrong outermost closer rejected in place", "pump:bad sibling of a deep item rejected in place", "pump:bad sibling of a deep member rejected in place"][cs[i].ending as usize]);
+                        t.outcome(["pump:closed ok", "pump:unclosed rejected at end", "pump:wrong closer rejected in place", "pump:trailing garbage rejected in place", "pump:wrong outermost closer rejected in place", "pump:bad sibling of a deep item rejected in place", "pump:bad sibling of a deep member rejected in place", "pump:ill-formed byte after the value reported in place", "pump:truncated sequence after the value reported in place", "pump:source failure after the value reported in place"][cs[i].ending as usize]);
                         t.nontrivial(&i);
                     } else {
                         t.violation("", format!("pumped document mishandled: {}", it.next().unwrap_or("")), case_json(i, &cs[i], tier));
@@ -471,7 +581,7 @@ pub fn run(rep: &mut Report, tier: Tier) {
     t.sample(case_json(0, &cs[0], tier));
     t.sample(case_json(n - 1, &cs[n - 1], tier));
     rep.bounds["pump"] = json!({"cases": n, "words": "all words of length 1..3 over {[, [1,, {\"k\":, {\"a\":1,\"k\":}; all words of length 1..2 with a wide container (array, object, array with the nested value in the middle) over widths on both sides of the power-of-two thresholds",
-        "widths": cs.iter().map(|c| c.width).collect::<std::collections::BTreeSet<_>>(), "endings": ["closed", "unclosed", "wrong innermost closer", "closed + trailing garbage", "wrong outermost closer", "deep first item then a bad item", "deep first member then a bad key"],
+        "widths": cs.iter().map(|c| c.width).collect::<std::collections::BTreeSet<_>>(), "endings": ["closed", "unclosed", "wrong innermost closer", "closed + trailing garbage", "wrong outermost closer", "deep first item then a bad item", "deep first member then a bad key", "closed + ill-formed byte", "closed + whitespace + truncated UTF-8", "closed + failing character source"],
         "depths": cs.iter().map(|c| c.depth).collect::<std::collections::BTreeSet<_>>(), "stack_kib": cs.iter().map(|c| c.stack_kib).collect::<std::collections::BTreeSet<_>>()});
     rep.absorb(t);
 }
